@@ -155,6 +155,7 @@ def explore_trace_config(cfg: dict) -> dict:
             rep = replay_trace_concrete(cfg, inputs)
             res['candidates'].append({'symbolic': r['bad'], 'inputs': inputs, 'replay': rep})
     res['exhausted'] = ctx.exhausted
+    res['smt_samples'] = list(ctx.samples)
     res['stats'] = ctx.stats.as_dict()
     res['assumptions'] = list(ctx.assumptions)
     res['shim_calls'] = dict(lf._SHIM.calls)
